@@ -33,3 +33,14 @@ def except_indices(m: Map[Str, Opt[NT['rbql_engine.VariableInfo']]], e: Str, lit
     if n <= 0:
         return []
     return except_indices(m, e, lits, n - 1) + [opt_val(m[except_name(e, lits, n - 1)]).index]
+
+
+# variable initialisation code (C09): one line per variable of the query that is to be initialised, binding it to its column
+@spec
+def init_lines(m: Map[Str, Opt[NT['rbql_engine.VariableInfo']]], ks: Seq[Str], n: Int, pre: Str, post: Str) -> Seq[Str]:
+    # for the first n variables (in the order of the map): `name = safe_get(record, index)` when the variable is to be initialised
+    if n <= 0:
+        return []
+    if opt_val(m[ks[n - 1]]).initialize:
+        return init_lines(m, ks, n - 1, pre, post) + [ks[n - 1] + pre + str_of_int(opt_val(m[ks[n - 1]]).index) + post]
+    return init_lines(m, ks, n - 1, pre, post)
